@@ -6,7 +6,7 @@ package builder
 // Contracts for package builder (consumed by /verif/govc; comment-only file).
 
 //@ func (*RuleBuilder).BuildRuleFromString$1
-//@   props C08 C04
+//@   props C08 C04 C16
 //@   requires kc != nil && 0 <= i && i < len(kc.SortRules) && 0 <= j && j < len(kc.SortRules) && allNonNil(kc.SortRules)
 //@   returns kc.SortRules[i].Salience > kc.SortRules[j].Salience
 //@   modifies nothing
@@ -15,8 +15,7 @@ package builder
 // full build (C08, C10): on success the installed container is the freshly parsed one, well formed; on any error
 // the installed container is untouched; success iff the text is non-blank and lexes, parses and walks cleanly
 //@ func (*RuleBuilder).BuildRuleFromString
-//@   props C08 C10 C04
-//@   alsoprops C16
+//@   props C08 C10 C04 C16
 //@   requires builder != nil && !held(builder.buildLock)
 //@   ensures [C10] agreement: (result == nil) <==> (!blank(ruleString) && !LexErrs(ruleString) && !SynErrs(ruleString) && !SemErrs(ruleString))
 //@   ensures [C10] allornothing: result != nil ==> builder.Kc == old(builder.Kc)
@@ -29,8 +28,7 @@ package builder
 // incremental build (C08, C10): every error is reported before the installed rule set is touched; on success the installed
 // container holds old (+) parsed, well formed (sorted, unique names, index map and list agree)
 //@ func (*RuleBuilder).BuildRuleWithIncremental
-//@   props C08 C10 C04
-//@   alsoprops C16
+//@   props C08 C10 C04 C16
 //@   arith int unchecked
 //@   requires builder != nil && !held(builder.buildLock) && wfKc(builder.Kc)
 //@   ghost OLD = builder.Kc
@@ -73,7 +71,7 @@ package builder
 //@   loop 4 decreases len(newSortRules) - rangeindex
 
 //@ func (*RuleBuilder).RemoveRules$1
-//@   props C08 C04
+//@   props C08 C04 C16
 //@   requires 0 <= i && i < len(newSortRuleEntities) && 0 <= j && j < len(newSortRuleEntities) && allNonNil(newSortRuleEntities)
 //@   returns newSortRuleEntities[i].Salience > newSortRuleEntities[j].Salience
 //@   modifies nothing
@@ -81,8 +79,7 @@ package builder
 
 // removal (C08): the new container holds exactly the old entities whose names are not listed (same pointers), well formed
 //@ func (*RuleBuilder).RemoveRules
-//@   props C08 C04
-//@   alsoprops C16
+//@   props C08 C04 C16
 //@   requires builder != nil && !held(builder.buildLock) && wfKc(builder.Kc)
 //@   ghost RE0 = builder.Kc.RuleEntities
 //@   ensures [C08] emptylist: len(ruleNames) == 0 ==> result != nil && builder.Kc == old(builder.Kc)
@@ -106,7 +103,7 @@ package builder
 //@   loop 3 invariant view: (forall k: string :: (k in newRuleEntities) ==> (k in RE0) && newRuleEntities[k] == RE0[k] && (forall qi :: lo(ruleNames) <= qi && qi < hi(ruleNames) ==> at(ruleNames, qi) != k)) && (forall k: string :: (k in RE0) && !(k in newRuleEntities) ==> exists qi :: lo(ruleNames) <= qi && qi < hi(ruleNames) && at(ruleNames, qi) == k)
 
 //@ func (*RuleBuilder).IsExist
-//@   props C08
+//@   props C08 C16
 //@   requires builder != nil && !held(builder.buildLock) && builder.Kc != nil
 //@   ensures [C08] agrees: len(result) == len(ruleNames) && (forall qi :: 0 <= qi && qi < len(ruleNames) ==> result[qi] == (ruleNames[qi] in builder.Kc.RuleEntities))
 //@   modifies nothing
@@ -115,7 +112,7 @@ package builder
 //@   loop 0 decreases len(ruleNames) - rangeindex
 
 //@ func NewRuleBuilder
-//@   props C08
+//@   props C08 C16
 //@   ensures fresh(result) && result != nil && result.Dc == dc && fresh(result.Kc) && wfKc(result.Kc) && emptymap(result.Kc.RuleEntities)
 //@   modifies nothing
 //@   nopanic
